@@ -453,3 +453,37 @@ theorem match_row_ta_mem (inp : Input) (hfa : inp.fixAlpha = none) (j pi a : Nat
     exact Or.inr ⟨a, ha, by rw [← hv]; exact hne, rfl, hv.symm⟩
 
 end DtsVerif.C01
+
+namespace DtsVerif.C01
+open DtsVerif.Calib DtsVerif.Calib.Input DtsVerif.Design DtsVerif.Py
+
+/-- what the recorded defect `C01-weights-transposed` is, for every size: the source ravels the variances location-major
+(`(…).values.ravel()` of an `(nx, nt)` array) while the rows are time-major, so the weight that meets the row of observation
+`(r, j)` — row `j·nx + r` — is entry `j·nx + r` of the location-major ravel, i.e. the variance of observation
+`((j·nx + r) / nt, (j·nx + r) % nt)`; this is the expression the model evaluates under `codeWeightOrder` -/
+theorem design_code_weight_order {α} (nx nt : Nat) (v : Nat → Nat → α) (j r : Nat) (hj : j < nt) (hr : r < nx) :
+    (ravelC nx nt v)[j * nx + r]? = some (v ((j * nx + r) / nt) ((j * nx + r) % nt)) := by
+  have hnt : 0 < nt := by omega
+  have hlt : j * nx + r < nx * nt := by
+    calc j * nx + r < j * nx + nx := by omega
+      _ = (j + 1) * nx := by rw [Nat.add_mul, Nat.one_mul]
+      _ ≤ nt * nx := Nat.mul_le_mul_right _ hj
+      _ = nx * nt := Nat.mul_comm _ _
+  have hlt' : j * nx + r < nt * nx := by rw [Nat.mul_comm nt nx]; exact hlt
+  have hdiv : (j * nx + r) / nt < nx := Nat.div_lt_of_lt_mul hlt'
+  have hmod : (j * nx + r) % nt < nt := Nat.mod_lt _ hnt
+  have := getElem?_ravelC nx nt v _ _ hdiv hmod
+  rw [Nat.div_add_mod' (j * nx + r) nt] at this
+  exact this
+
+/-- … whereas the time-major ravel (`.T.ravel()`, the order of `y` and of the rows) gives the observation's own variance -/
+theorem design_own_weight_order {α} (nx nt : Nat) (v : Nat → Nat → α) (j r : Nat) (hj : j < nt) (hr : r < nx) :
+    (ravelC nt nx (fun j r => v r j))[j * nx + r]? = some (v r j) :=
+  getElem?_ravelC nt nx _ j r hj hr
+
+/-- the two orders differ as soon as there are two times and two locations: row 1 (`r = 1, j = 0`) receives the variance of
+observation `(0, 1)` -/
+example : (ravelC 2 2 (fun r j => (r, j)))[0 * 2 + 1]? = some (0, 1) ∧ (ravelC 2 2 (fun j r => (r, j)))[0 * 2 + 1]? = some (1, 0) := by
+  decide
+
+end DtsVerif.C01
